@@ -5,7 +5,7 @@ open ScriggoV ScriggoV.Gen.LexTables
 
 /-- what the template layer needs from `lexCode` (proved in Lemmas/Lexer/Code*.lean) -/
 structure CodeSpec (E : Env) : Prop where
-  lexCode_ok : ∀ (endT : Nat) (st : St), st.base ≤ E.text.length →
+  lexCode_ok : ∀ (endT : Nat) (st : St), st.base ≤ E.text.length → Bal st →
     ∃ st' e, lexCode E endT st = .ok (st', e) ∧ Ext E st st' ∧ st'.tagIndex = st.tagIndex ∧
       (e = none → ((endT = tokenRightBraces ∨ endT = tokenEndStatement) → 2 ≤ srcLen E st') ∧
                   (endT = tokenEndStatements → 3 ≤ srcLen E st'))
@@ -38,17 +38,21 @@ def CaseGood (E : Env) (st : St) (lp : Loop) : CaseOut → Prop
 /-- a `fall` that keeps `base` and `toks` and does not move `p` back -/
 theorem FallGood.same {E : Env} {st st' : St} {lp lp' : Loop} (hI : LoopInv E st lp)
     (hb : st'.base = st.base) (ht : st'.toks = st.toks) (hti : st'.tagIndex ≤ st.tagIndex)
-    (hp : lp.p ≤ lp'.p) (hlt : lp'.p < srcLen E st) : FallGood E st lp st' lp' := by
+    (hp : lp.p ≤ lp'.p) (hlt : lp'.p < srcLen E st)
+    (hcx : st'.contexts = st.contexts := by rfl) (hbs : st'.bases = st.bases := by rfl) :
+    FallGood E st lp st' lp' := by
   have hs : srcLen E st' = srcLen E st := by unfold srcLen; rw [hb]
-  refine ⟨⟨hb ▸ hI.base_le, by rw [hs]; omega, ?_⟩, (Ext.refl hI.base_le).of_eq hb ht, by rw [hb]; omega, by rw [hs]; exact hlt⟩
+  refine ⟨⟨hb ▸ hI.base_le, by rw [hs]; omega, ?_⟩, (Ext.refl hI.base_le).of_eq hb ht hcx hbs, by rw [hb]; omega, by rw [hs]; exact hlt⟩
   have := hI.tag_le; rw [hb]; omega
 
 /-- a `next` that keeps `base` and `toks` and moves `p` forward -/
 theorem NextGood.same {E : Env} {st st' : St} {lp lp' : Loop} (hI : LoopInv E st lp)
     (hb : st'.base = st.base) (ht : st'.toks = st.toks) (hti : st'.tagIndex ≤ st'.base + lp'.p)
-    (hp : lp.p < lp'.p) (hle : lp'.p ≤ srcLen E st) : NextGood E st lp st' lp' := by
+    (hp : lp.p < lp'.p) (hle : lp'.p ≤ srcLen E st)
+    (hcx : st'.contexts = st.contexts := by rfl) (hbs : st'.bases = st.bases := by rfl) :
+    NextGood E st lp st' lp' := by
   have hs : srcLen E st' = srcLen E st := by unfold srcLen; rw [hb]
-  refine ⟨⟨hb ▸ hI.base_le, by rw [hs]; exact hle, hti⟩, (Ext.refl hI.base_le).of_eq hb ht, ?_⟩
+  refine ⟨⟨hb ▸ hI.base_le, by rw [hs]; exact hle, hti⟩, (Ext.refl hI.base_le).of_eq hb ht hcx hbs, ?_⟩
   unfold mu
   have h1 := attrCtx_le st'.ctx
   have h2 := hI.base_le
@@ -71,9 +75,11 @@ theorem NextStrict.good {E : Env} {st st' : St} {lp lp' : Loop} (_hI : LoopInv E
 
 theorem NextStrict.same {E : Env} {st st' : St} {lp lp' : Loop} (hI : LoopInv E st lp)
     (hb : st'.base = st.base) (ht : st'.toks = st.toks) (hti : st'.tagIndex ≤ st'.base + lp'.p)
-    (hp : lp.p < lp'.p) (hle : lp'.p ≤ srcLen E st) : NextStrict E st lp st' lp' := by
+    (hp : lp.p < lp'.p) (hle : lp'.p ≤ srcLen E st)
+    (hcx : st'.contexts = st.contexts := by rfl) (hbs : st'.bases = st.bases := by rfl) :
+    NextStrict E st lp st' lp' := by
   have hs : srcLen E st' = srcLen E st := by unfold srcLen; rw [hb]
-  exact ⟨⟨hb ▸ hI.base_le, by rw [hs]; exact hle, hti⟩, (Ext.refl hI.base_le).of_eq hb ht, by rw [hb]; omega⟩
+  exact ⟨⟨hb ▸ hI.base_le, by rw [hs]; exact hle, hti⟩, (Ext.refl hI.base_le).of_eq hb ht hcx hbs, by rw [hb]; omega⟩
 
 theorem flushText_ok {E : Env} {st : St} {lp : Loop} (hI : LoopInv E st lp) :
     ∃ st', flushText E st lp = .ok st' ∧ Ext E st st' ∧ st'.base = st.base + lp.p ∧ st'.ctx = st.ctx ∧
@@ -209,7 +215,7 @@ theorem caseLT_strict {E : Env} {st : St} {lp : Loop} (hI : LoopInv E st lp) (hl
     simp only [walk, hw, bind_ok, pure_eq_ok]
     refine ⟨_, _, rfl, ?_⟩
     have hs2 := hs.trans hs1
-    apply NextStrict.same hI hs2.base hs2.toks
+    refine NextStrict.same hI hs2.base hs2.toks ?_ ?_ ?_ hs2.contexts hs2.bases
     · have := hI.tag_le
       have : st1.tagIndex = st.tagIndex := by rw [hs2]
       rw [this, hs2.base]
@@ -225,7 +231,7 @@ theorem caseLT_strict {E : Env} {st : St} {lp : Loop} (hI : LoopInv E st lp) (hl
     refine ⟨_, _, rfl, ?_⟩
     have hs2 := hs.trans h2
     rw [hs.srcLen] at h4
-    apply NextStrict.same hI
+    refine NextStrict.same hI ?_ ?_ ?_ ?_ ?_ ?_ ?_
     · split
       · split
         · exact hs2.base
@@ -248,6 +254,8 @@ theorem caseLT_strict {E : Env} {st : St} {lp : Loop} (hI : LoopInv E st lp) (hl
       · show st1.tagIndex ≤ st1.base + q; omega
     · show lp.p < q; omega
     · exact h4
+    · (repeat' split) <;> exact hs2.contexts
+    · (repeat' split) <;> exact hs2.bases
 
 theorem caseLT_ok {E : Env} {st : St} {lp : Loop} (hI : LoopInv E st lp) (hlt : lp.p < srcLen E st) :
     ∃ o, caseLT E st lp = .ok o ∧ CaseGood E st lp o := by
